@@ -1,8 +1,9 @@
 CONSTANTS
   AsCoded = FALSE
-  GateHole = FALSE
+  GateHole = TRUE
 INIT IInit
 NEXT INext
 CHECK_DEADLOCK FALSE
 INVARIANT ITypeOK
-INVARIANT Sound
+INVARIANT SoundUpToGateGap
+INVARIANT GateGapIsReal
